@@ -795,6 +795,41 @@ def r21_ref_const_field_arms(body: Text):
             return n
 
 
+def r23_continue_guard(body: Text):
+    """R23: `if C { continue; } REST` (REST = the remainder of the enclosing loop body) becomes `if !(C) { REST }`:
+    this Verus build has no `continue` in for-loops.  Only applied when the `if` sits directly in the loop body block."""
+    n = 0
+    while True:
+        t = body.t
+        code = code_mask(t)
+        m = next((m for m in re.finditer(r'\bif\s+([^{};]+?)\s*\{\s*continue;\s*\}', t) if code[m.start()]), None)
+        if not m:
+            return n
+        # innermost block containing the `if`
+        depth = 0
+        i = m.start() - 1
+        while i >= 0:
+            if code[i]:
+                if t[i] == '}':
+                    depth += 1
+                elif t[i] == '{':
+                    if depth == 0:
+                        break
+                    depth -= 1
+            i -= 1
+        if i < 0:
+            body.lost.append('R23: enclosing block of `continue` not found')
+            return n
+        end = match_brace(t, code, i) - 1          # position of the closing brace of the enclosing block
+        head = t[max(0, i - 200):i]
+        if not re.search(r'\bfor\b[^{};]*$', head):
+            body.lost.append('R23: `if .. { continue; }` is not directly inside a for-loop body')
+            return n
+        body.edit('R23', end, end, '} ', 'continue guard: close')
+        body.edit('R23', m.start(), m.end(), 'if !(%s) {' % m.group(1).strip(), 'continue guard')
+        n += 1
+
+
 def r20_let_intro(body: Text, needle, tmp):
     """R20: A-normal form for one sub-expression: the (single-line) expression statement containing `needle` becomes
     `{ let tmp = needle; <statement with tmp> }` so that a proof hint can refer to the intermediate value.  Evaluation order
